@@ -61,7 +61,7 @@ let iopc_s = function
   | IoHwWCwf -> "IoHwWCwf" | IoHwWWc -> "IoHwWWc" | IoHwWc -> "IoHwWc"
   | IoHc (h, eof) -> "IoHc." ^ hc_s h ^ (if eof then ".eof" else "") | IoDead -> "IoDead"
 let wkpc_s = function
-  | WAcqD -> "WAcqD" | WWait -> "WWait" | WParked -> "WParked" | WRelD -> "WRelD" | WSvReq -> "WSvReq" | WSvConn -> "WSvConn"
+  | WAcqD -> "WAcqD" | WWait -> "WWait" | WParked -> "WParked" | WRelD -> "WRelD" | WSvReq -> "WSvReq" | WSvConn -> "WSvConn" | WSvWc -> "WSvWc"
   | WWsConn -> "WWsConn" | WWsAcq -> "WWsAcq" | WWsHw -> "WWsHw" | WWsConn2 -> "WWsConn2" | WWsRelX -> "WWsRelX"
   | WWsRot -> "WWsRot" | WWsApp -> "WWsApp" | WWsTotR -> "WWsTotR" | WWsTotW _ -> "WWsTotW" | WWsChk -> "WWsChk"
   | WWsFl f -> "WWsFl." ^ fl_s f | WWsExcW -> "WWsExcW" | WWsChk2 -> "WWsChk2" | WWsTrig -> "WWsTrig" | WWsRel -> "WWsRel"
